@@ -24,7 +24,9 @@ TStep == \/ TReset
          \/ Ev.ev = "Push" /\ Step(Push(Ev.a[1]))
          \/ Ev.ev = "Pop" /\ Step(Pop)
          \/ Ev.ev = "Peek" /\ Step(Peek)
-         \/ Ev.ev = "PushWithExpand" /\ Step(PushWithExpand(Ev.a[1]))
+         \/ Ev.ev = "PushWithExpand" /\ Step(PushWithExpand(Ev.a[1], Ev.r[1]))
+         \/ Ev.ev = "PushN" /\ Step(PushN(Ev.a[1], Ev.a[2]))
+         \/ Ev.ev = "PopN" /\ Step(PopN(Ev.a[1]))
          \/ Ev.ev = "Recap" /\ Step(Recap(Ev.a[1]))
          \/ Ev.ev = "Query" /\ Step(Query)
 TNext == l <= Len(Trace) /\ TStep
